@@ -3,6 +3,7 @@ package operator
 import (
 	"github.com/pingcap/kvproto/pkg/metapb"
 	v "github.com/tikv/pd/pkg/zzvrf"
+	"github.com/tikv/pd/server/core"
 )
 
 // VerifC08Build: for every origin placement (per store: absent / voter / learner,
@@ -29,6 +30,13 @@ func vrfBuildScenario() (sc *vrfScenario, ok bool) {
 	joint := mode >= 1
 	tc := vrfCluster(n, joint, mode == 2)
 	sim := &simRegion{id: 1, confVer: v.Uint64("confVer"), version: v.Uint64("version")}
+	if v.Param("sick", 0) == 1 {
+		// one store (or none) is offline: it must not be handed the leader unless the caller forces it
+		if off := v.Choice("offlineStore", n+1); off != 0 {
+			sim.offline = uint64(off)
+			tc.PutStore(tc.GetStore(uint64(off)).Clone(core.OfflineStore(false)))
+		}
+	}
 	v.Assume(sim.confVer < 1<<60)
 	originVoters := 0
 	for st := 1; st <= n; st++ {
@@ -92,6 +100,7 @@ func vrfBuildScenario() (sc *vrfScenario, ok bool) {
 	if wantLeader != 0 && v.Choice("forceTargetLeader", 2) == 1 {
 		b.EnableForceTargetLeader()
 	}
+	sim.forcedLeader = wantLeader // a leader the caller asked for is the caller's choice
 	op, err := b.Build(0)
 	if err != nil {
 		v.Reach("rejected")
